@@ -54,7 +54,7 @@ pub fn run(ctx: &Ctx, rep: &mut Report) {
             make_token(&mut u, TokKind::Probe, &admin, &mut rng),
         ];
         let spenders: Vec<Address> = (0..3).map(|_| u.principal()).collect();
-        let receivers: Vec<Address> = (0..2).map(|_| u.principal()).chain(std::iter::once(spenders[0].clone())).chain(std::iter::once(gs.clone())).collect();
+        let receivers: Vec<Address> = (0..2).map(|_| u.principal()).chain(std::iter::once(spenders[0].clone())).chain(std::iter::once(gs.clone())).chain(std::iter::once(collector.clone())).chain(std::iter::once(owner.clone())).collect();
         // model balances
         let mut bal: BTreeMap<(usize, Address), i128> = BTreeMap::new();
         for (ti, t) in toks.iter().enumerate() {
@@ -260,5 +260,5 @@ pub fn run(ctx: &Ctx, rep: &mut Report) {
     req.extend(AMOUNTS.iter().map(|o| format!("amount:{}", o)));
     req.push("offline-conservation-checked".into());
     rep.notes.insert("required".into(), json!(req));
-    rep.notes.insert("rule".into(), json!("universes of 40 operations over 3 tokens (Stellar asset contract, the tree's interchain token, a probe token that can refuse transfers), 3 spenders, 3 receivers; op in {pay_gas, add_gas, collect_fees, refund}, amount in {0, negative, 1, payer's balance, balance+1, random, i128::MAX}, authoriser in {own (spender / collector), nobody, stranger, contract owner, counterparty}; all balances of all holders compared with the model after every operation; per universe sum(gas_paid)+sum(gas_added)-sum(gas_collected)-sum(gas_refunded) over announced amounts = final service balance. distinct = (op, token kind, amount class, authoriser, token refusing, outcome)"));
+    rep.notes.insert("rule".into(), json!("universes of 40 operations over 3 tokens (Stellar asset contract, the tree's interchain token, a probe token that can refuse transfers), 3 spenders, 6 receivers (two plain accounts, a spender, the service itself, the collector, the owner); op in {pay_gas, add_gas, collect_fees, refund}, amount in {0, negative, 1, payer's balance, balance+1, random, i128::MAX}, authoriser in {own (spender / collector), nobody, stranger, contract owner, counterparty}; all balances of all holders compared with the model after every operation; per universe sum(gas_paid)+sum(gas_added)-sum(gas_collected)-sum(gas_refunded) over announced amounts = final service balance. distinct = (op, token kind, amount class, authoriser, token refusing, outcome)"));
 }
